@@ -54,3 +54,36 @@ def run(ctx):
         P3["driver"] = {"cmd": "delta", "env": {"VERIF_BIG": "1"}}
         P3["n_random"] = (3, 40)
         pipeline.standard_check(ctx, P3)
+
+
+def selftest(ctx):
+    def drop_call(evs):
+        for i, e in enumerate(evs):
+            if e["ev"] == "des_set" and i > 5:
+                return evs[:i] + evs[i + 1:]
+
+    def flip_value(evs):
+        for e in evs:
+            if e["ev"] == "obs" and e["desired"]:
+                k = sorted(e["desired"])[0]
+                e["desired"][k] = e["desired"][k] % 9 + 1
+                return evs
+
+    def lose_pending(evs):
+        for e in evs:
+            if e["ev"] == "obs" and e["pd"]:
+                e["pd"] = e["pd"][1:]
+                return evs
+
+    return pipeline.corruption_selftest(ctx, P, [("drop_call", drop_call), ("flip_value", flip_value), ("lose_pending", lose_pending)])
+
+
+MANIFEST = dict(
+    text="TLC checks exhaustively (3 keys x 2 values) that the three-map implementation design (I_Delta) refines "
+         "the two-map property spec (Delta); every transition of the abstract state graph is replayed on the real "
+         "DeltaTracker (leg A) and every recorded call + observation of the four views is validated by TLC "
+         "against Delta (leg B), plus seeded random sequences with mutation during iteration, batched iteration "
+         "and failing ReplaceAllIter.",
+    design_ref="3.5 C18",
+    technique="TLA+ spec (Delta/I_Delta) + TLC; TLC-generated behaviours replayed; trace validation with TLC",
+)
